@@ -149,3 +149,37 @@ Theorem C06_generated_ia_predicate :
      ia_kind sem (in_vars_impl io f ++ in_vars_impl io g) (out_vars_impl io f ++ out_vars_impl io g) = pk_impl io sem f g).
 Proof. exact @dense_online_gen_ia_predicate. Qed.
 Print Assumptions C06_generated_ia_predicate.
+
+(* the visitPredicate overrides of the IA-STL dense-time OFFLINE visitors as GENERATED from the Python text
+   (rtamt/semantics/iastl/dense_time/offline/ast_visitor.py -> DenseOfflineIAGen.v, tools/py2coq_denseoffline_ia.py, on every build):
+   the base method returns the pair (robustness samples, satisfaction flags) of the hand model ia_scan, every variant returns
+   ia_pred with its kind — PBool / PVac when `not node.out_vars` (`not node.in_vars`), PStd otherwise — after the same merge
+   (isect (a2 AR Sub), None = intersection() raises); with the lists the node constructors build the kind is pk_impl, i.e. the
+   predicate case of deval_pk (C06_dense_visitor). *)
+From RV Require Import DenseMerge PyDenseOff PyDenseOffIA DenseOfflineGen DenseOfflineIAGen DenseOfflineIAGenCorrect.
+Theorem C06_generated_dense_offline_predicate :
+  forall (VS : Val) (AR : Arith VS),
+  (forall c l r, option_map fst (gen_ia_visitPredicate AR c l r) = option_map (ia_pred AR PStd c) (isect (a2 AR Sub) l r)) /\
+  (forall c l r, option_map snd (gen_ia_visitPredicate AR c l r)
+                 = option_map (fun d => map (fun q => (fst q, snd (snd q))) (ia_scan AR c None d)) (isect (a2 AR Sub) l r)) /\
+  (forall c nv l r, gen_ia_OutputRobustness_visitPredicate AR c nv l r
+                    = option_map (ia_pred AR (if nv then PBool else PStd) c) (isect (a2 AR Sub) l r)) /\
+  (forall c nv l r, gen_ia_InputRobustness_visitPredicate AR c nv l r
+                    = option_map (ia_pred AR (if nv then PBool else PStd) c) (isect (a2 AR Sub) l r)) /\
+  (forall c nv l r, gen_ia_InputVacuity_visitPredicate AR c nv l r
+                    = option_map (ia_pred AR (if nv then PVac else PStd) c) (isect (a2 AR Sub) l r)) /\
+  (forall c nv l r, gen_ia_OutputVacuity_visitPredicate AR c nv l r
+                    = option_map (ia_pred AR (if nv then PVac else PStd) c) (isect (a2 AR Sub) l r)).
+Proof. exact @dense_offline_gen_ia_predicate. Qed.
+Print Assumptions C06_generated_dense_offline_predicate.
+
+Theorem C06_generated_dense_offline_predicate_kind :
+  forall (VS : Val) (AR : Arith VS) (io : nat -> bool) (f g : formula) c l r,
+  let no_out := is_nil (out_vars_impl io f ++ out_vars_impl io g) in
+  let no_in := is_nil (in_vars_impl io f ++ in_vars_impl io g) in
+  gen_ia_OutputRobustness_visitPredicate AR c no_out l r = option_map (ia_pred AR (pk_impl io OutputRobustness f g) c) (isect (a2 AR Sub) l r) /\
+  gen_ia_InputRobustness_visitPredicate AR c no_in l r = option_map (ia_pred AR (pk_impl io InputRobustness f g) c) (isect (a2 AR Sub) l r) /\
+  gen_ia_InputVacuity_visitPredicate AR c no_in l r = option_map (ia_pred AR (pk_impl io InputVacuity f g) c) (isect (a2 AR Sub) l r) /\
+  gen_ia_OutputVacuity_visitPredicate AR c no_out l r = option_map (ia_pred AR (pk_impl io OutputVacuity f g) c) (isect (a2 AR Sub) l r).
+Proof. exact @dense_offline_gen_ia_predicate_pk. Qed.
+Print Assumptions C06_generated_dense_offline_predicate_kind.
